@@ -332,7 +332,7 @@ func (flattenEngine) counts(prop, tier string) (sys, rnd int) {
 	if prop == "C07" {
 		rnd /= 2
 		if tier == "thorough" {
-			rnd = 1500
+			rnd = 600
 		}
 	}
 	return
@@ -423,7 +423,7 @@ func (flattenEngine) Info(prop, tier string) runner.Info {
 	case "C06":
 		in.Rule = base + "RemoveUnused option sets only. Oracle: shared parameters/responses empty; every remaining definition is the (decoded) target of some $ref of the output; no $ref dangles; operations unchanged in meaning; removal loop within its iteration budget (H1). non-trivial = a definition was removed or a hostile-named definition is present."
 	case "C07":
-		in.Rule = base + "Oracle: bytes of json.Marshal(document) across R fresh repeats x P key-order permutations of every file (quick P=3,R=4 under three representative option sets; thorough P=6,R=8 under every applicable option set); Expand only for bundles without reference cycle. non-trivial = Flatten changed the document and an unsorted getter returned at least two different orders across the runs (map orders really varied)."
+		in.Rule = base + "Oracle: bytes of json.Marshal(document) across R fresh repeats x P key-order permutations of every file (quick P=3,R=4 under three representative option sets; thorough P=5,R=6 under every applicable option set); Expand only for bundles without reference cycle. non-trivial = Flatten changed the document and an unsorted getter returned at least two different orders across the runs (map orders really varied)."
 	case "C08":
 		in.Rule = base + "Minimal/full option sets. Oracle: flatten the output again (a) reloaded from its bytes (b) on the same object with the same analyzer: must succeed with byte-identical result. non-trivial = the first pass changed the document."
 	case "C10":
@@ -939,7 +939,7 @@ func (e flattenEngine) c07(res *runner.Result, c *runner.Case, files map[string]
 	}
 	P, R := 3, 4
 	if tier == "thorough" {
-		P, R = 6, 8
+		P, R = 5, 6
 	}
 	var ref string
 	var refDoc jx.Obj
